@@ -62,6 +62,7 @@ func c15(r *core.Run) {
 	r.Rule("T1", "configured duration: the timer queue that expires query events is (re)built unconditionally in serve's initialisation, before the workers start, with the duration field that SetQueryEventDuration stores; a queue kept from a previous run would keep that run's duration", 1)
 	r.Rule("S1", "fresh subject, registered for expiry: the subject subscribed, the subject published in the query event and the NewInbox result are one value; on the success edge the query event is added to the timer queue on every path", 3)
 	r.Rule("C1", "per-iteration capture: a closure created in a loop does not capture a variable that the loop re-assigns (go.mod selects per-loop variable semantics)", 1)
+	r.Rule("L2", "no send on a closed query channel: a close of the channel a query-event subscription delivers to happens only after that subscription was removed synchronously (Subscription.Unsubscribe dominates the close); Drain only starts the removal - until the server has processed it the client's reader still sends in-flight query requests to the channel, and a send on a closed channel panics on a goroutine nothing recovers", 1)
 	r.Rule("L1", "listener termination: every goroutine started by the library that ranges over a channel has a close of that channel reachable in library code", 2)
 
 	root := p.FuncsOfPkg("")
@@ -71,6 +72,8 @@ func c15(r *core.Run) {
 	}
 	models := c04Models(r, "R1")
 	mQ := models["queryRequest"]
+	r.Rule("R2", "at most one response per query request (shared with C04.R0): the replied flag of the query request is written only in its reply funnel, where the store of true lies on the false edge of a test of the flag and dominates the single Conn.Publish - every reply method, including the ones that send a constant payload, goes through that test", 3)
+	c04ReplyFunnel(r, "R2", "queryRequest", models, p.FuncsOfPkg(""), map[*ssa.Function]bool{})
 	// roles: QueryEvent is the public entry point; the listener is the queryEvent method it starts
 	// with go; the request handler is the queryEvent method that takes the NATS message
 	qev := methodNamed(p, "", "resource", "QueryEvent")
@@ -415,11 +418,13 @@ func c15(r *core.Run) {
 		sameSub := subCall.Common().Args[0] == inbox.Value()
 		// published payload: struct whose Subject field is the inbox
 		pubOK := false
-		for _, b := range qev.Blocks {
-			for _, in := range b.Instrs {
-				if st, ok := in.(*ssa.Store); ok {
-					if f, ok := core.FieldOf(st.Addr); ok && f.Name == "Subject" && st.Val == inbox.Value() {
-						pubOK = true
+		for _, f2 := range p.Helpers(qev) { // the payload may be built by a helper that is handed the subject
+			for _, b := range f2.Blocks {
+				for _, in := range b.Instrs {
+					if st, ok := in.(*ssa.Store); ok {
+						if f, ok := core.FieldOf(st.Addr); ok && f.Name == "Subject" && (st.Val == inbox.Value() || originOf(p, st.Val) == inbox.Value()) {
+							pubOK = true
+						}
 					}
 				}
 			}
@@ -488,6 +493,7 @@ func c15(r *core.Run) {
 	r.Analysed["closures_created_in_loops"] = nLoopCl
 	r.OKTrivial("C1", "library", "closures-in-loops-scanned", "-", fmt.Sprintf("%d closures created in loops scanned for shared captured variables", nLoopCl))
 
+	c15CloseAfterUnsubscribe(r, "L2")
 	// ---- L1 --------------------------------------------------------------
 	closedFields := map[core.Field]bool{}
 	for _, fn := range root {
@@ -590,5 +596,38 @@ func c15(r *core.Run) {
 				r.Check(closedFields[fld], "L1", core.FuncName(fn), kind+":"+calName+":ranges-"+fldName, p.InstrPos(c), "the channel is closed somewhere in the library, so the loop can end", "the function ranges over "+fld.String()+" which no library code ever closes: every expired query event leaves its listener goroutine (and channel) parked forever")
 			}
 		}
+	}
+}
+
+// c15CloseAfterUnsubscribe: see rule L2. The channel is any chan-typed member of
+// queryEvent; the subscription its *nats.Subscription member.
+func c15CloseAfterUnsubscribe(r *core.Run, rule string) {
+	p := r.P
+	n := 0
+	for _, fn := range p.FuncsOfPkg("") {
+		for _, c := range core.Calls(fn) {
+			if core.CalleeName(c) != "builtin:close" {
+				continue
+			}
+			f, ok := core.LoadedField(c.Common().Args[0])
+			if !ok || f.Struct != "queryEvent" {
+				continue
+			}
+			n++
+			synced := false
+			for _, c2 := range core.Calls(fn) {
+				cal := c2.Common().StaticCallee()
+				if cal == nil || cal.Name() != "Unsubscribe" || cal.Signature.Recv() == nil || core.TypeName(cal.Signature.Recv().Type()) != "Subscription" {
+					continue
+				}
+				if sf, ok := core.LoadedField(c2.Common().Args[0]); ok && sf.Struct == "queryEvent" && core.Dominates(c2, c) && !core.IsGo(c2) && !core.IsDefer(c2) {
+					synced = true
+				}
+			}
+			r.Check(synced, rule, core.FuncName(fn), "close(<query-channel>)-after-Unsubscribe", p.InstrPos(c), "the subscription was removed synchronously before its channel is closed", "the query event's channel is closed while its subscription can still deliver (no Subscription.Unsubscribe before the close; Drain is asynchronous): a query request in flight at that moment makes the client's reader send on a closed channel - a panic that takes the whole process down")
+		}
+	}
+	if n == 0 {
+		r.OKTrivial(rule, "queryEvent", "query-channel-never-closed", "-", "no library code closes a query-event channel (the leak that follows is L1's known finding)")
 	}
 }
